@@ -171,6 +171,9 @@ pub fn gen_workload(sub: u64) -> Workload {
             extra_flags.push(["--max-filesize=2K", "--max-filesize=300"][rng.below(2)].into());
         }
     }
+    if mode == "stdout-in-tree" && rng.chance(2, 3) {
+        extra_flags.push("-L".into());
+    }
     extra_flags.dedup();
     if mode == "json" || mode == "files" {
         extra_flags.retain(|f| f != "--column" && f != "--trim");
@@ -483,7 +486,7 @@ fn judge(w: &Workload, ref_blocks: &[Vec<u8>], reference: &RunOut, got: &RunOut)
     if w.mode != "quiet" && sorted_lines(&got.stderr) != sorted_lines(&reference.stderr) {
         return Some(("stderr-differs".into(), format!("stderr differs: {:?} vs {:?}", show(&got.stderr), show(&reference.stderr))));
     }
-    if w.mode == "stdout-in-tree" && lines(&got.stdout).iter().any(|l| l.starts_with(b"w/zz-out.txt")) {
+    if w.mode == "stdout-in-tree" && lines(&got.stdout).iter().any(|l| l.starts_with(b"w/zz-out.txt") || l.starts_with(b"w/zz-link.txt")) {
         return Some(("searched-its-own-output".into(), "standard output is w/zz-out.txt, and results from that file are in it".into()));
     }
     if w.mode == "sorted" {
@@ -596,6 +599,12 @@ pub fn run_workload(sub: u64, only_seed: Option<u64>, acc: &mut Acc, ctx: &Ctx, 
     }
     // single-threaded reference: no scheduler involved
     let stdout_file = if w.mode == "stdout-in-tree" { Some("w/zz-out.txt".to_string()) } else { None };
+    if w.mode == "stdout-in-tree" && root.is_dir() {
+        // the output file is also reachable under another name (with -L, which some of these
+        // workloads pass, that name is the same file and must be left alone as well)
+        let _ = std::fs::write(root.join("zz-out.txt"), b"");
+        let _ = std::os::unix::fs::symlink("zz-out.txt", root.join("zz-link.txt"));
+    }
     let ref_spec = RunSpec { args: args_for(&w, 1), plan: plan.clone(), stdout_file: stdout_file.clone(), ..RunSpec::default() };
     let reference = ctx.run(&cwd, &ref_spec, 60);
     acc.evals += 1;
